@@ -78,7 +78,7 @@ func translateUnit(repo string, u unit) (text string, err error) {
 	}()
 	t := &tr{unit: u, fset: token.NewFileSet(), structs: map[string]*ast.StructType{}, decls: map[string]*ast.FuncDecl{},
 		consts: map[string]ast.Expr{}, vars: map[string]ast.Expr{}, fns: map[string]*fn{}, recs: map[string][]field{},
-		svarType: map[string]string{}, effArgs: map[string][]string{}, constDone: map[string]bool{}, tparams: map[string]bool{}, ifaces: map[string]*ast.InterfaceType{}, named: map[string]ast.Expr{}}
+		svarType: map[string]string{}, effArgs: map[string][]string{}, constDone: map[string]bool{}, tparams: map[string]bool{}, ifaces: map[string]*ast.InterfaceType{}, named: map[string]ast.Expr{}, constIota: map[string]int{}}
 	dir := filepath.Join(repo, u.dir)
 	names, e := filepath.Glob(filepath.Join(dir, "*.go"))
 	if e != nil || len(names) == 0 {
@@ -105,7 +105,17 @@ func translateUnit(repo string, u unit) (text string, err error) {
 			case *ast.FuncDecl:
 				t.decls[declKey(d)] = d
 			case *ast.GenDecl:
-				for _, s := range d.Specs {
+				var lastVals []ast.Expr
+				for si, s := range d.Specs {
+					if vs, ok := s.(*ast.ValueSpec); ok && d.Tok == token.CONST { // iota and implicit repetition
+						if len(vs.Values) == 0 {
+							vs.Values = lastVals
+						}
+						lastVals = vs.Values
+						for _, id := range vs.Names {
+							t.constIota[id.Name] = si
+						}
+					}
 					switch s := s.(type) {
 					case *ast.TypeSpec:
 						switch ty := s.Type.(type) {
@@ -226,6 +236,8 @@ func (t *tr) emit() string {
 	recs := b.String()
 	b.Reset()
 	b.WriteString(hdr)
+	sort.Strings(t.opaque) // alphabetical, so that the order of the premises does not depend on the order of use
+	sort.Strings(t.svars)
 	for _, o := range t.opaque {
 		w("Variable %s : Type.\n", o)
 	}
